@@ -210,6 +210,7 @@ class World:
         self.fp, self.meta_snap, self.state = [], [], []
         self.rd, self.rd_new = {}, {}
         self.pristine, self.mutlog = [], []
+        self.own_table, self.on_tables = [], []
         self.meta_real = {}     # deep copies of every object's metadata as of its last change
         self._bbflag = {}
         self.last_operand = None
@@ -230,7 +231,14 @@ class World:
                                   if d['role'] != 'wave' and len(d['data'])])
 
     # ---------------------------------------------------------------- bookkeeping
-    def add_obj(self, ob, kind, bad):
+    def add_obj(self, ob, kind, bad, tables=(), own=False):
+        """`tables`: the tabulated models (identified by the object that was constructed on them) this object is built
+        on ACCORDING TO THE DOCUMENTATION: a constructor on Empirical1D / a tapered copy owns a new one (`own`), an
+        operator / normalize / Observation returns a new composite over its operands' tables and owns none.  This
+        book-keeping never looks at the implementation's object graph."""
+        i = len(self.objs)
+        self.own_table.append(i if own else None)
+        self.on_tables.append(frozenset(tables) | ({i} if own else frozenset()))
         if kind == 'source' and not bad:
             self.last_source = len(self.objs)
         # a private copy taken before anything has been asked of the new object, and the documented mutators
@@ -405,7 +413,7 @@ class World:
         out = self.guarded(lambda: cls(Empirical1D, **kw))
         info = {'y': yi}
         if 'ok' in out:
-            out = {'ok': {'obj': self.add_obj(out['ok'], kind, False)}}
+            out = {'ok': {'obj': self.add_obj(out['ok'], kind, False, own=True)}}
         return conc, out, info
 
     def do_new_analytic(self, st):
@@ -500,7 +508,8 @@ class World:
         if 'ok' in out:
             res = out['ok']
             bad = self.bad[a] or (info['b'] is not None and self.bad[info['b']])
-            out = {'ok': {'obj': self.add_obj(res, O.kind_of(res), bad)}}
+            tb = self.on_tables[a] | (self.on_tables[info['b']] if info['b'] is not None else frozenset())
+            out = {'ok': {'obj': self.add_obj(res, O.kind_of(res), bad, tables=tb)}}
         return {'do': 'arith', 'op': op, 'a': a, 'b': bj}, out, info
 
     def do_rmul(self, st):
@@ -512,7 +521,7 @@ class World:
         out = self.guarded(lambda: v * self.objs[a])
         if 'ok' in out:
             res = out['ok']
-            out = {'ok': {'obj': self.add_obj(res, O.kind_of(res), self.bad[a])}}
+            out = {'ok': {'obj': self.add_obj(res, O.kind_of(res), self.bad[a], tables=self.on_tables[a])}}
         return {'do': 'rmul', 'v': st['v'], 'a': a}, out, {'a': a, 'b': None}
 
     def overlap(self, band, src, bad):
@@ -548,7 +557,7 @@ class World:
                 conc['k'] = q(float(res.model.right.factor.value))
             except Exception:  # noqa
                 pass
-            out = {'ok': {'obj': self.add_obj(res, 'source', self.bad[o])}}
+            out = {'ok': {'obj': self.add_obj(res, 'source', self.bad[o], tables=self.on_tables[o])}}
         return conc, out, info
 
     def taper_data(self, o):
@@ -590,7 +599,7 @@ class World:
             if res is self.objs[o]:
                 out = {'ok': {'obj': o}}
             else:
-                out = {'ok': {'obj': self.add_obj(res, self.kinds[o], False)}}
+                out = {'ok': {'obj': self.add_obj(res, self.kinds[o], False, own=True)}}
         return conc, out, {'o': o}
 
     def do_observation(self, st):
@@ -623,11 +632,11 @@ class World:
         if 'ok' in out:
             res = out['ok']
             if res.spectrum is not sp:
-                t = self.add_obj(res.spectrum, 'source', False)
+                t = self.add_obj(res.spectrum, 'source', False, own=True)
                 info['tapered'] = t
-                out = {'ok': {'objs': [t, self.add_obj(res, 'observation', False)]}}
+                out = {'ok': {'objs': [t, self.add_obj(res, 'observation', False, tables=self.on_tables[t] | self.on_tables[band])]}}
             else:
-                out = {'ok': {'obj': self.add_obj(res, 'observation', False)}}
+                out = {'ok': {'obj': self.add_obj(res, 'observation', False, tables=self.on_tables[src] | self.on_tables[band])}}
         return conc, out, info
 
     def do_integrate(self, st):
@@ -853,22 +862,31 @@ class World:
         return {i for i in range(len(self.objs)) if i not in self.dead
                 and any(l is m for l in model_leaves(self.objs[i].model))}
 
+    def reached_by_force(self, o):
+        """the objects the documentation allows `force_extrapolation()` on #o to change: nothing unless #o was itself
+        constructed on a table (a composite or analytic spectrum is not an Empirical1D: "only applicable to
+        Empirical1D"); otherwise #o and every object built on that table"""
+        t = self.own_table[o]
+        if t is None:
+            return set()
+        return {i for i in range(len(self.objs)) if i not in self.dead and t in self.on_tables[i]}
+
     def allowed_before(self, conc, info):
         """what the documentation allows this call to modify in place: (objects whose samples may change,
-        objects whose metadata may change).  Computed *before* the call from the live object graph."""
+        objects whose metadata may change), from the harness's own book-keeping of what was built on what."""
         d = conc['do']
         if d in ('set_z', 'set_ztype'):
             return {info['o']}, set()
         if d == 'force_extrap':
-            return self.sharing(info['o']), set()
+            return self.reached_by_force(info['o']), set()
         if d == 'normalize' and info['stat'].startswith('partial') and not (
                 info['stat'] == 'partial_notmost' and not conc['force']):
             # only where renormalisation proceeds on a partial overlap; a call refused with PartialOverlap
             # (force=False, partial_notmost) or DisjointError must leave its operand exactly as it was
-            return self.sharing(info['o']), set()
+            return self.reached_by_force(info['o']), set()
         if d == 'observation' and info['stat'].startswith('partial') and str(conc['force']).lower().startswith('extrap') \
                 and self.kinds[info['src']] == 'source':
-            return self.sharing(info['src']), set()
+            return self.reached_by_force(info['src']), set()
         if d in ('set_warnings', 'set_meta'):
             return set(), {info['o']}
         return set(), set()
@@ -1087,8 +1105,9 @@ class World:
         m = self.objs[o]._model
         if not isinstance(m, Empirical1D):
             return
+        reach = self.reached_by_force(o)
         for j in range(len(self.objs)):
-            if j in self.dead or self.pristine[j] is None:
+            if j in self.dead or self.pristine[j] is None or j not in reach:
                 continue
             for idx, l in enumerate(model_leaves(self.objs[j]._model)):
                 if l is m:
@@ -1561,7 +1580,7 @@ def gen_step(rng, k):
         if rb < 0.6:
             b = {'sel': S(rng)}
         elif rb < 0.9:
-            b = O.gen_scalar(rng, valid=True)
+            b = dict(rng.choice(UNIT_FACTORS)) if rng.random() < 0.25 else O.gen_scalar(rng, valid=True)
         else:
             b = {'bad': rng.choice(BAD_OPERANDS)[0]}
         return {'do': 'arith', 'op': rng.choice(['mul', 'mul', 'mul', 'add', 'sub', 'div']), 'a': S(rng), 'b': b}
@@ -1604,6 +1623,34 @@ def gen_step(rng, k):
             'v': jcanon('v%d' % rng.randint(0, 9))}
 
 
+UNIT_FACTORS = [{'scalar': 'int', 'v': '1'}, {'scalar': 'float', 'v': '1'}, {'scalar': 'bool', 'v': '1'},
+                {'scalar': 'npfloat', 'v': '1'}, {'scalar': 'npint', 'v': '1'}, {'scalar': 'quantity', 'v': '1'}]
+
+
+def gen_unit_scale(rng, a):
+    """`x * 1`, `x / 1`, `1 * x` with the factor one in every spelling: the result is a NEW composite"""
+    if rng.random() < 0.15:
+        return {'do': 'rmul', 'v': '1', 'a': a}
+    return {'do': 'arith', 'op': rng.choice(['mul', 'mul', 'div']), 'a': a, 'b': dict(rng.choice(UNIT_FACTORS))}
+
+
+def mutators_on_result(rng):
+    """the mutators the property names, applied to the newest object (the result of the preceding step)"""
+    out = []
+    r = rng.random()
+    if r < 0.35:
+        out.append({'do': 'force_extrap', 'o': -1})
+    elif r < 0.65:
+        out.append({'do': 'new_analytic', 'kind': 'bandpass',
+                    'leaf': {'leaf': 'box_rel', 'rel': rng.choice(['high', 'low']), 'amp': q(O.dy(rng, 0.25, 1, 2))}})
+        out.append({'do': 'observation', 'src': 'src', 'band': -1, 'wild': False, 'binset': None, 'force': 'extrap'})
+    else:
+        out.append({'do': 'new_analytic', 'kind': 'bandpass',
+                    'leaf': {'leaf': 'box_rel', 'rel': rng.choice(['high', 'low']), 'amp': q(O.dy(rng, 0.25, 1, 2))}})
+        out.append({'do': 'normalize', 'o': 'src', 'band': -1, 'force': True, 'wild': False, 'val': rng.choice(['flam', 'photlam'])})
+    return out
+
+
 def gen_deep_edit(rng, o):
     return {'do': 'edit_meta_deep', 'o': o, 'n': S(rng), 'tag': 'E%d' % rng.randint(0, 99),
             'mode': rng.choice(['append_list', 'set_dict_key', 'mutate_elem', 'mutate_elem', 'replace_nested'])}
@@ -1631,6 +1678,18 @@ def follow_ups(rng, st):
             else:
                 out.append({'do': 'observation', 'src': 'src', 'band': -1, 'wild': False, 'binset': None,
                             'force': rng.choice(['none', 'none', 'none', 'extrap', 'taper', 'bogus'])})
+    if st['do'] == 'new_empirical' and rng.random() < 0.22:
+        # multiplying / dividing by exactly one (in every spelling) gives a NEW composite object: it carries no
+        # header / expr, and the mutators the property names, applied to the RESULT, must not reach the operand
+        out.append(gen_unit_scale(rng, -1))
+        if st['kind'] == 'source':
+            out.extend(mutators_on_result(rng))
+        else:
+            out.append({'do': 'force_extrap', 'o': -1})
+        if rng.random() < 0.5:
+            out.append(rng.choice([{'do': 'set_meta', 'o': -1, 'k': rng.choice(['note', 'expr', 'header']), 'v': jcanon('r%d' % rng.randint(0, 9))},
+                                   {'do': 'set_warnings', 'o': -1, 'w': [['result', jcanon('w')]]}, gen_deep_edit(rng, -1)]))
+        return out
     if st['do'] == 'new_empirical' and st.get('meta') is not None and st['kind'] in ('source', 'bandpass') and rng.random() < 0.3:
         # a second operand that also carries user metadata (often under the same keys), a product / sum of the two,
         # and edits of the result's metadata at every depth: the operands' metadata must stay as they are
